@@ -332,6 +332,10 @@ func (d *tDecoder) decodeType(t *tType, b []byte, p unsafe.Pointer, maxdepth int
 				}
 				*(*unsafe.Pointer)(tmp) = sliceV
 				tmp = sliceV
+			} else if vt.T == tSTRUCT {
+				// the tmp struct is reused for every entry and every call:
+				// fields absent from this entry must not keep an earlier entry's values
+				v.SetZero()
 			}
 			if vt.FixedSize > 0 {
 				i += decodeFixedSizeTypes(vt.T, b[i:], tmp)
